@@ -49,7 +49,7 @@ pub fn vis(s: &str) -> String {
 /// Display cells of a (visualised) character: the oracle's own table for the alphabet in use.
 pub fn w_char(c: char) -> usize {
     match c {
-        '中' => 2,
+        '中' | '字' | '😀' => 2,
         _ => 1,
     }
 }
@@ -60,7 +60,9 @@ pub fn w_str(s: &str) -> usize {
 /// The oracle's width table must agree with both width notions of `unicode-width` on everything the
 /// generators can emit, otherwise column judgements would depend on an implementation choice.
 pub fn self_check_widths() -> Result<(), String> {
-    for c in ['a', 'ß', '中', '\u{2409}', '\u{240a}', '\u{240d}', ' ', '|', '^', 'v', '.', '1'] {
+    let mut all: Vec<char> = vec!['a', 'ß', '中', ' ', '|', '^', 'v', '.', '1', '字', '😀', '∆', 'Z', '\u{2421}'];
+    all.extend((0x2400u32..=0x241f).filter_map(char::from_u32));
+    for c in all {
         let mine = w_char(c);
         let s = c.to_string();
         let w1 = UnicodeWidthChar::width(c).unwrap_or(0);
